@@ -7,6 +7,7 @@ import (
 	"fmt"
 	"os"
 	"os/exec"
+	"regexp"
 	"strings"
 	"time"
 
@@ -32,9 +33,9 @@ func init() {
 		}
 		n := 0
 		_ = db.View(func(tx *bolt.Tx) error {
-			for range tx.Check() {
+			for e := range tx.Check() {
 				n++
-				fmt.Printf("partial=%d\n", n)
+				fmt.Printf("partial=%d\nE %s\n", n, checkCode(e.Error()))
 			}
 			return nil
 		})
@@ -62,6 +63,34 @@ func init() {
 	}
 }
 
+var checkPats = []struct {
+	re   *regexp.Regexp
+	code string
+}{
+	{regexp.MustCompile(`^page (\d+): already freed`), "AF:$1"},
+	{regexp.MustCompile(`^page (\d+): unreachable unfreed`), "UU:$1"},
+	{regexp.MustCompile(`^page (\d+): out of bounds`), "OB:$1"},
+	{regexp.MustCompile(`^page (\d+): multiple references`), "MR:$1"},
+	{regexp.MustCompile(`^page (\d+): reachable freed`), "RF:$1"},
+	{regexp.MustCompile(`^page (\d+): invalid type`), "IT:$1"},
+	{regexp.MustCompile(`^unexpected page type \(flags: [0-9a-f]+\) for pgId:(\d+)`), "UT:$1"},
+	{regexp.MustCompile(`^the first key\[(\d+)\]=.* on \w+ page\((\d+)\) needs to be >= the key in the ancestor`), "KF:$2:$1"},
+	{regexp.MustCompile(`^key\[(\d+)\]=.* on \w+ page\((\d+)\) needs to be > \(found <\)`), "KL:$2:$1"},
+	{regexp.MustCompile(`^key\[(\d+)\]=.* on \w+ page\((\d+)\) needs to be > \(found =\)`), "KE:$2:$1"},
+	{regexp.MustCompile(`^key\[(\d+)\]=.* on \w+ page\((\d+)\) needs to be < than key of the next element`), "KM:$2:$1"},
+}
+
+// checkCode maps one message of Tx.Check to a short class code; messages this table does not know become "??"
+// (a reworded message must not raise an alarm: the oracle then falls back to comparing verdicts only).
+func checkCode(msg string) string {
+	for _, p := range checkPats {
+		if m := p.re.FindStringSubmatchIndex(msg); m != nil {
+			return string(p.re.ExpandString(nil, p.code, msg, m))
+		}
+	}
+	return "??"
+}
+
 func checkInChild(path string) string {
 	cmd := exec.Command(os.Args[0], "c19check", path)
 	var out bytes.Buffer
@@ -75,6 +104,16 @@ func checkInChild(path string) string {
 	case err := <-done:
 		lines := strings.Split(strings.TrimSpace(out.String()), "\n")
 		last := lines[len(lines)-1]
+		var codes []string
+		for _, l := range lines {
+			if strings.HasPrefix(l, "E ") && len(codes) < 400 {
+				codes = append(codes, l[2:])
+			}
+		}
+		errs := " errs=-"
+		if len(codes) > 0 {
+			errs = " errs=" + strings.Join(codes, ",")
+		}
 		if err != nil || !strings.HasPrefix(last, "lib=") {
 			// died: how many problems had been reported before?
 			n := 0
@@ -84,11 +123,11 @@ func checkInChild(path string) string {
 				}
 			}
 			if n > 0 {
-				return fmt.Sprintf("lib=crash-after-%d cli=1", n)
+				return fmt.Sprintf("lib=crash-after-%d cli=1", n) + errs
 			}
 			return "lib=crash cli=crash"
 		}
-		return last
+		return last + errs
 	case <-time.After(20 * time.Second):
 		_ = cmd.Process.Kill()
 		return "lib=hang cli=hang"
